@@ -23,6 +23,7 @@ EXPLANATION = (
     "an int count so that merge_stats' key-wise + is the partition-independent sum."
     " Z3 also decides the source of balanced_cnt: len(A) - len(B) - len(C) with B and C the single-assignment filter_data selections of A by the labels other than 'Balance'."
     ' (Z5) in Balancer.rebalance the batch statistics are merged under exactly the conditions under which the batch rows are collected; (Z6) the validator labels a row solved under exactly the comparator-label / carbon-label / not-yet-solved tests that balanced_cnt is derived from.'
+    ' (Z7) no row is folded into another before the counting stages (shared with C05-P1, duplicates); (Z8) the MCS search marks every row that is unsolved at its start.'
 )
 ASSUMPTIONS = ["that every row the imputer counted as solved survives validation is data-dependent and not decided"]
 
